@@ -190,7 +190,9 @@ def tmp_leftovers(chk, dfs, scratch, quick):
                     err="", disc=-1, variant=k, tmpdir=tmpdir or "")
     events = common.pmap(do, list(enumerate(jobs)))
     if any(e["rc"] == 97 for e in events):
-        raise common.MachineryError("could not mount a private tmpfs")
+        # the probe worked but a later mount did not (resource limits): this phase cannot observe anything then; say so, do not guess
+        chk.extra["tmp_namespace"] = "private tmpfs could not be mounted for %d of %d runs; phase skipped" % (sum(1 for e in events if e["rc"] == 97), len(events))
+        return
     for e in events:
         chk.case(("tmp", e["variant"], tuple(e["cmd"]), e["tmpdir"]), nontrivial=True)
     trace = os.path.join(scratch, "tl-trace.ndjson")
